@@ -39,8 +39,9 @@ def suspend(I, st, node=None):
                 st.assume(specs.eval_clause(I, st, cl, env, fr.func))
         finally:
             st.old_heap, st.old_alloc = saved
-    if c.cancellable:
+    if c.cancellable and not (c.cancellable == "once" and getattr(st, "was_cancelled", False)):
         if st.choose(2, "cancelled at suspension") == 1:
+            st.was_cancelled = True
             from .state import RaiseExc, ExcVal
             raise RaiseExc(ExcVal("CancelledError", True), where=getattr(node, "lineno", None))
 
@@ -315,6 +316,10 @@ def await_opaque(I, st, v, node):
 
 
 def call_any_method(I, st, meth, obj, args, kwargs, node):
+    from .vtypes import NONE
+    if obj.extra and obj.extra[0] == "event_loop" and meth == "add_signal_handler":
+        I.drops.add("loop.add_signal_handler(signal, self.stop): registration of the stop handler (stop() itself is under contract; its delivery is part of the rely: stop may be requested at any suspension)")
+        return NONE
     raise Unsupported("method %s on untyped value (line %s)" % (meth, getattr(node, "lineno", "?")))
 
 
@@ -333,6 +338,10 @@ def call_external(I, st, dotted, args, kwargs, node):
                                  kwargs.get("return_when", I.str_const(st, "ALL_COMPLETED"))))
     if dotted == "asyncio.gather":
         return Val("Awaitable", ("gather", list(args), kwargs.get("return_exceptions")))
+    if dotted == "platform.system":
+        return Val("Str", st.fresh(__import__("pyvc.vtypes", fromlist=["StrS"]).StrS, "platform"))
+    if dotted == "asyncio.get_event_loop":
+        return Val("Any", st.fresh(RefS, "loop"), extra=("event_loop",))
     if dotted == "logging.getLogRecordFactory":
         return log_factory(I, st)
     if dotted == "logging.setLogRecordFactory":
@@ -370,6 +379,15 @@ def stages_in_order(I, st, fname, event, lists):
         if ok:
             alts.append(z3.And(*conj))
     return z3.Or(*alts) if alts else z3.BoolVal(False)
+
+
+def gathered_count(I, st, fname, src):
+    """how many gathered batches so far called coroutine function `fname` once per element of the container `src`"""
+    n = 0
+    for fi, argmap, guard, bound, bsrc in st.ghost.get("$batches", []):
+        if fi.name == fname and bsrc is not None and bsrc.term is not None and z3.is_expr(bsrc.term) and bsrc.term.eq(src.term):
+            n += 1
+    return n
 
 
 def log_factory(I, st, entry=False):
